@@ -30,6 +30,7 @@ prop(
     legs=[
         dict(name="codec", crate="l1base", sub="c05", shards={Q: 8, T: 16}, budget={Q: 12000, T: 400000}, timeout=2400),
         dict(name="codec-relverif", crate="l1base", sub="c05", profile="relverif", tiers=(T,), mandatory=False, shards={T: 8}, budget={T: 100000}, timeout=2400),
+        dict(name="asan", kind="asan", crate="l1base", sub="c05", tiers=(T,), budget={T: 3000}, timeout=5400, mandatory=False),
     ],
     floors={
         Q: {"enumerated.frame": 25_000, "enumerated.header": 30_000, "enumerated.params": 3000, "enumerated.prim": 500, "decodes_compared": 300_000,
